@@ -136,6 +136,39 @@ Proof.
 Qed.
 Print Assumptions C13_backpressure.
 
+(* progress of the back-pressure wait (the specification of the wait is
+   "re-check whenever pending decreases", with no wake-up token that could be
+   lost): in EVERY state in which readLoop holds a decoded message m and
+   pending + len m <= limit (or there is no limit) the admission step is
+   enabled - in particular in the state right after ANY handler return that
+   made enough room, however many returns that took - and taking it sets no
+   error.  An implementation that stays blocked in such a state (with an idle
+   consumer) does not refine the model: the correspondence reports code 8. *)
+Theorem C13_backpressure_progress : forall sm r s0 rqcap k s m lim,
+  rph (rc s) = RAdmit m lim -> (lim = 0 \/ pendR (rc s) + m_len m <= lim) ->
+  exists s', step sm r s0 rqcap k s Admit = Some s' /\ fl s' = fl s /\ rph (rc s') = RPut m /\
+             pendR (rc s') = pendR (rc s) + m_len m.
+Proof.
+  intros sm r s0 rqcap k s m lim HR HG. destr_st s. cbn in *. subst rph.
+  unfold do_admit. cbn.
+  assert (E : N.eqb lim 0 || (pendR + m_len m <=? lim) = true).
+  { destruct HG as [->|HG]; [reflexivity|]. apply orb_true_iff. right. apply N.leb_le. exact HG. }
+  rewrite E. eexists. repeat split; reflexivity.
+Qed.
+(* ... and once everything accounted has been handled (pending = 0) a held
+   message is always admissible: a drained consumer can never face a stalled reader *)
+Theorem C13_drained_reader_moves : forall sm r s0 rqcap k ls s m lim,
+  run sm r s0 rqcap k (init sm r s0) ls = Some s -> rph (rc s) = RAdmit m lim -> pendR (rc s) = 0 ->
+  exists s', step sm r s0 rqcap k s Admit = Some s'.
+Proof.
+  intros sm r s0 rqcap k ls s m lim H HR HP.
+  destruct (admit_lim_inv sm r s0 rqcap k ls s H m lim HR) as (_ & _ & HL).
+  destruct (C13_backpressure_progress sm r s0 rqcap k s m lim HR) as (s' & E & _).
+  - destruct HL as [->|HL]; [left; reflexivity|right; rewrite HP; lia].
+  - eauto.
+Qed.
+Print Assumptions C13_drained_reader_moves.
+
 (* REFUTED as written ("in EVERY state that declares a limit ... never more
    than THAT limit"): block-fetch declares 2,500,000 for Busy/Streaming and
    65,535 for Idle; the limit is read when a message is admitted, so bytes
